@@ -2,7 +2,10 @@
 
 package zzverif
 
-import "sync"
+import (
+	"context"
+	"sync"
+)
 
 // Go-level models: bodies that the engine executes symbolically INSTEAD of the
 // named callee (assembly, reflection, or library code outside reach). Natively
@@ -224,3 +227,22 @@ func ModelSyncMapRange(m *sync.Map, f func(key, value any) bool) {
 
 //verif:model (*sync.Map).Clear
 func ModelSyncMapClear(m *sync.Map) { clear(syncMapOf(m)) }
+
+// ---- context.WithValue without the reflect-based comparability check ----
+
+type modelValueCtx struct {
+	context.Context
+	key, val any
+}
+
+func (c *modelValueCtx) Value(key any) any {
+	if c.key == key {
+		return c.val
+	}
+	return c.Context.Value(key)
+}
+
+//verif:model context.WithValue
+func ModelContextWithValue(parent context.Context, key, val any) context.Context {
+	return &modelValueCtx{parent, key, val}
+}
